@@ -13,6 +13,9 @@ package main
 //                          `if !endStream` block of setupRetry (go/ast)
 //   proxy_global_lost_cas_stops : the global timer closure of onUpstreamRequestSent has `if !CompareAndSwapUint32(..) { return }`
 //                          with nothing else in the condition (go/ast)
+//   proxy_append_error_continues : downStream.appendHeaders handles an error of responseSender.AppendHeaders by logging only
+//                          (block of the `if err := ...; err != nil` has nothing but log calls), and appendData / appendTrailers
+//                          discard the sender's result or only log it (go/ast)
 //   proxy_hijack_clears_body : sendHijackReply assigns downstreamRespDataBuf = nil at top level (go/ast)
 //   proxy_put_resets_cursor : streamfilter.PutStreamFilterChain (or a chain method it calls) assigns 0 to both cursors (go/ast)
 //   proxy_default_global_ms : types.GlobalTimeout (evaluated)
@@ -327,6 +330,93 @@ func genProxyTokens(repo string) (string, error) {
 	}
 	fmt.Fprintf(&b, "Definition proxy_global_lost_cas_stops : bool := %v.\n", glc)
 
+	// --- what the append steps do with an error returned by the downstream sender
+	// handling(fn, method): 0 = call not found / unknown shape, 1 = result discarded or only logged, 2 = the error block does more
+	onlyLogs := func(blk *ast.BlockStmt) bool {
+		for _, st := range blk.List {
+			es, isExpr := st.(*ast.ExprStmt)
+			if !isExpr {
+				return false
+			}
+			ce, isCall := es.X.(*ast.CallExpr)
+			if !isCall {
+				return false
+			}
+			root := ce.Fun
+			for {
+				if se, isSel := root.(*ast.SelectorExpr); isSel {
+					root = se.X
+					continue
+				}
+				break
+			}
+			if id, isID := root.(*ast.Ident); !isID || id.Name != "log" {
+				return false
+			}
+		}
+		return true
+	}
+	isSenderCall := func(e ast.Expr, method string) bool {
+		ce, isCall := e.(*ast.CallExpr)
+		if !isCall {
+			return false
+		}
+		se, isSel := ce.Fun.(*ast.SelectorExpr)
+		if !isSel || se.Sel.Name != method {
+			return false
+		}
+		rs, isRS := se.X.(*ast.SelectorExpr)
+		return isRS && rs.Sel.Name == "responseSender"
+	}
+	handling := func(fn, method string) int {
+		fd := FindFunc(f, "downStream", fn)
+		if fd == nil {
+			return 0
+		}
+		res, seen := 0, 0
+		for _, st := range fd.Body.List {
+			switch x := st.(type) {
+			case *ast.ExprStmt:
+				if isSenderCall(x.X, method) {
+					seen++
+					res = 1
+				}
+			case *ast.IfStmt:
+				if as, isAs := x.Init.(*ast.AssignStmt); isAs && len(as.Rhs) == 1 && isSenderCall(as.Rhs[0], method) {
+					seen++
+					if x.Else == nil && onlyLogs(x.Body) {
+						res = 1
+					} else {
+						res = 2
+					}
+				}
+			case *ast.AssignStmt:
+				if len(x.Rhs) == 1 && isSenderCall(x.Rhs[0], method) {
+					seen++
+					res = 2 // the result is kept: what happens to it is not understood by this translator
+				}
+			}
+		}
+		if seen != 1 {
+			return 0
+		}
+		return res
+	}
+	hh, hd, ht := handling("appendHeaders", "AppendHeaders"), handling("appendData", "AppendData"), handling("appendTrailers", "AppendTrailers")
+	if hh == 0 || hd != 1 || ht != 1 {
+		ok = false
+	}
+	// the reply is finished through endStream() at the end of appendHeaders: `if endStream { s.endStream() }` as last statement
+	if ah := FindFunc(f, "downStream", "appendHeaders"); ah != nil && len(ah.Body.List) > 0 {
+		last, isIf := ah.Body.List[len(ah.Body.List)-1].(*ast.IfStmt)
+		if !isIf {
+			ok = false
+		} else if id, isID := last.Cond.(*ast.Ident); !isID || id.Name != "endStream" {
+			ok = false
+		}
+	}
+	fmt.Fprintf(&b, "Definition proxy_append_error_continues : bool := %v.\n", hh == 1)
+
 	// --- retry budget default and reset() shape
 	_, rf, err := ParseGoFile(repo, "pkg/proxy/retrystate.go")
 	if err != nil {
@@ -397,7 +487,7 @@ func genProxyTokens(repo string) (string, error) {
 		}
 	}
 	fmt.Fprintf(&b, "Definition proxy_default_global_ms : Z := %d.\n", int64(types.GlobalTimeout/time.Millisecond))
-	b.WriteString("Definition proxy_src : srcp :=\n  {| loop_bound := proxy_loop_bound; min_budget := proxy_min_budget; reset_guarded := proxy_reset_guarded;\n     direct_clears_again := proxy_direct_clears_again;\n     direct_cancels_retry := proxy_direct_cancels_retry; direct_resets_upstream := proxy_direct_resets_upstream;\n     put_resets_cursor := proxy_put_resets_cursor;\n     retry_checks_direct := proxy_retry_checks_direct; retry_refinalizes := proxy_retry_refinalizes;\n     timers_reset_stream := proxy_timers_reset_stream; hijack_clears_body := proxy_hijack_clears_body;\n     retry_clears_reuse := proxy_retry_clears_reuse; setupretry_clears_reuse := proxy_setupretry_clears_reuse;\n     global_lost_cas_stops := proxy_global_lost_cas_stops; reason_code := proxy_reason_code |}.\n")
+	b.WriteString("Definition proxy_src : srcp :=\n  {| loop_bound := proxy_loop_bound; min_budget := proxy_min_budget; reset_guarded := proxy_reset_guarded;\n     direct_clears_again := proxy_direct_clears_again;\n     direct_cancels_retry := proxy_direct_cancels_retry; direct_resets_upstream := proxy_direct_resets_upstream;\n     put_resets_cursor := proxy_put_resets_cursor;\n     retry_checks_direct := proxy_retry_checks_direct; retry_refinalizes := proxy_retry_refinalizes;\n     timers_reset_stream := proxy_timers_reset_stream; hijack_clears_body := proxy_hijack_clears_body;\n     retry_clears_reuse := proxy_retry_clears_reuse; setupretry_clears_reuse := proxy_setupretry_clears_reuse;\n     global_lost_cas_stops := proxy_global_lost_cas_stops; append_error_continues := proxy_append_error_continues;\n     reason_code := proxy_reason_code |}.\n")
 	fmt.Fprintf(&b, "Definition ProxyTokens_translator_ok := %v.\n", ok)
 	return b.String(), nil
 }
